@@ -267,11 +267,7 @@ func (h *hb) access(tid int, p interface{}, write bool, site string) {
 		if v.IsNil() {
 			return
 		}
-		if e := v.Elem(); e.Kind() == reflect.Map && !e.IsNil() {
-			ptr = e.Pointer()
-		} else {
-			ptr = v.Pointer()
-		}
+		ptr = v.Pointer()
 	default:
 		return
 	}
@@ -284,8 +280,8 @@ func (h *hb) access(tid int, p interface{}, write bool, site string) {
 	c := h.clock(tid)
 	report := func(prev access, prevWrite bool) {
 		what := site
-		if i := strings.LastIndexByte(site, ' '); i >= 0 {
-			what = site[i+1:]
+		if f := strings.Fields(site); len(f) >= 2 {
+			what = f[1]
 		}
 		if i := strings.LastIndexByte(what, '.'); i >= 0 {
 			what = what[i+1:]
